@@ -32,7 +32,8 @@ ASSUMPTIONS = ["only the DISPATCH of the analysis is modelled here (which rule a
                "the early exit taken when the delta graph proves infinity is not modelled: correspondence cases in which it fires are skipped and counted",
                "effects in for-loop init / next expressions are the loop's iteration header and are not counted as ignored effects"]
 LEVEL_TEXT = ("Machine-checked theorems about an executable Coq model of the syntax gate and of the analysis dispatch over all generic trees; "
-              "model tied to the code by generated tables + differential correspondence; real-code search with an independent oracle.")
+              "an accepted counted loop has one source of iteration and its guard does not occur in the body (C05_accepted_*); "
+              "model tied to the code by generated tables, pinned method bodies + differential correspondence; real-code search with independent oracles.")
 LEVEL_NOTE = "Trusted: Coq kernel, translators, pyc_dump, harness. No axioms."
 TECHNIQUE = "Coq proof over a generic AST + grammar-based search with an independent oracle + model/code correspondence"
 
